@@ -32,6 +32,10 @@ type schedParams struct {
 	ExpectLimit                   int64 `json:"expect_limit"`
 	ExpectIntervalMs              int   `json:"expect_interval_ms"`
 	ExpectNotNotifiedAfterDestroy bool  `json:"expect_not_notified_after_destroy"`
+	// ExpectNoStuckNotification: at the end no notification of a settings change is still waiting to
+	// be taken by somebody (a thread blocked sending on a channel): its receiver would be a component
+	// that has been shut down and was told all the same
+	ExpectNoStuckNotification bool `json:"expect_no_stuck_notification"`
 }
 
 func init() {
@@ -131,6 +135,13 @@ func scenarioSched(c *vrun.Ctx) {
 				}
 				if p.ExpectNotNotifiedAfterDestroy && r.limit == 900 {
 					c.Violation(propOr(p.Prop, "C19")+"/"+p.Name+"/notified-after-destroy", "a cache that had been destroyed was still notified of a later limit change: "+r.history(), x)
+				}
+				if p.ExpectNoStuckNotification {
+					for _, b := range x.Blocked {
+						if strings.Contains(b, "@send:") {
+							c.Violation(propOr(p.Prop, "C19")+"/"+p.Name+"/notification-for-a-shut-down-component", "after the cache was shut down a later settings change was still sent to it (and is stuck, nobody takes it): "+b+" | "+r.history(), x)
+						}
+					}
 				}
 				for _, k := range p.ExpectPresent {
 					// (only an entry that was in fact stored: a memory cache with a single shard lock cannot evict
